@@ -25,6 +25,18 @@ callbacks; histories in which an earlier run on the same object was aborted by a
 optimizer in batch (e, b) is the request of a callback at BatchStart e b, one raised by the scheduler in epoch e is the
 request of a callback at EpochEnd e (same flag at every later poll).
 
+Regimes added after black-box seed round 6 (objects the caller hands over, and what happens to them later): the `callbacks=`
+argument in every form the unchanged library accepts and serves (CB_FORMS: list, tuple, CallbackList built four ways, nested
+CallbackList, generator expression / function, iter(), filter, map, chain, islice, reversed, dict / OrderedDict / MappingProxyType /
+keys and values views, deque, UserList, list subclass, user classes with only __getitem__ / only __iter__ / a one-shot iterator,
+one-element frozenset and numpy object array; also EMPTY containers of each form when there is no callback) - rotated through a fixed
+block that runs first, the enumerated scripts and the random stream, always with the same trace oracle; histories in which the SAME
+container object holding the SAME callback objects (and the same data / bases / optimizer_args objects) is handed to a second and third
+fit call with other settings (re-iterable forms; a single-pass iterable cannot be handed over twice); after every call the user's
+callback objects must still be listed in the caller's container, as often and in the same order as before (objects the call ADDED to
+the caller's container, and writes to data / bases / optimizer_args, are counted as information: the consequences the property talks
+about are checked by the next call on the same objects).
+
 Oracle (independent of model and code; demands only what the property statement says): a Python recogniser of the
 documented grammar, the reference full run, the stop rules, "parameters identical between consecutive events unless
 they are BatchStart e b -> BatchEnd e b", optimizer/scheduler step counts (C06), optimizer.step inside its batch,
@@ -34,17 +46,18 @@ list order.
 Informational only (histogram keys `info:*`, never a verdict): what is printed (Timer wording, number of lines,
 "prints nothing"), the return value of fit, whether every batch moved the parameters, the setter's treatment of
 borderline values (0, 1, numpy.bool_) and the class of the exception it raises."""
-import io, time as _time, contextlib, itertools, functools
+import io, time as _time, contextlib, itertools, functools, collections, types as _types
 import numpy as np
 
-RULE = ("fixed regimes first (N = 0 rows, arguments left at their defaults incl. starting_epoch, 2-3 fit calls on one object with and without a flag reset, the same callback object listed twice, "
+RULE = ("fixed regimes first (every form of the callbacks= argument x three state types [31 forms: sequences, mappings and views, single-pass iterables, "
+        "user-defined iterables, CallbackLists built in four ways, empty containers], the SAME container / callback / data objects handed to 2-3 calls with other settings, N = 0 rows, arguments left at their defaults incl. starting_epoch, 2-3 fit calls on one object with and without a flag reset, the same callback object listed twice, "
         "numpy-integer arguments, stop requested by the optimizer / scheduler with and without callbacks, a run aborted by an exception in a callback followed by ordinary runs, "
         "LambdaCallback hooks as bound method / partial / callable instance / closure, k = 0, 2, 3), then "
         "ALL scripts with starting_epoch in {1,3}, epochs 0..3 (quick) / 0..4 (thorough), batches per epoch 0..3 / 0..4 (0 = no rows, positive state) "
         "(N and pos_batch_size chosen to give that count, dividing and non-dividing, neg_batch_size varied), "
         "a stop raised at every callback-event index of the run or never, by callback 0 of 1, or callback 0 / 1 of 2 "
         "(callback 0: full CallbackBase subclass; the others rotate through LambdaCallback with all/some/no hooks, partial "
-        "CallbackBase subclasses, bare CallbackBase(), passed as list/tuple/CallbackList, progbar occasionally), "
+        "CallbackBase subclasses, bare CallbackBase(), passed in one of the 31 container forms in rotation, progbar occasionally), "
         "time on/off, scheduler on/off, three state types "
         "(quick: full product for positive, a rotating third of the callback/time/scheduler product for complex and mixed; "
         "thorough: full product + random larger scripts incl. negative/zero epochs), plus stop pre-set (explicitly and by "
@@ -54,6 +67,11 @@ ASSUMPTIONS = ["callbacks, optimizer and scheduler only ever raise stop_training
                "integer arguments are Python ints or numpy integers (np.int64 / np.int32); floats, strings and other number-likes are not generated",
                "the recording optimizer is SGD with lr = 0.1 and weight_decay = 0.05 (passed through optimizer_args), so every "
                "optimizer.step moves the non-zero weights even when the CD gradient of a tiny batch happens to cancel exactly",
+               "the callbacks= argument is any iterable of callbacks that the unchanged fit() accepts (it only tests its truth value and copies it with list()): "
+               "the docstring says list[CallbackBase], seed C12f was judged IN because a collection whose callbacks silently receive no event at all breaks every clause of the statement; "
+               "not generated: numpy object arrays with 0 or >= 2 elements (their truth value raises on the unchanged tree), sets with >= 2 elements (no list order), a bare callback",
+               "objects that fit ADDS to the caller's own callbacks container (e.g. a Timer ending up in the user's list) and writes to the data / bases / optimizer_args "
+               "objects are informational; only consequences for the events of a later call on the same objects are demanded",
                "the Timer appended by time=True is not observed (what it prints is informational only); that time=True leaves "
                "the user callbacks' protocol untouched is observed"]
 
@@ -182,13 +200,185 @@ def callback_positions(case):
     return pos
 
 
-def make_callbacks(tape, case):
+
+# ----------------------------------------------------------------------------- the forms of the `callbacks=` argument
+# Every form below is accepted by the unchanged library (fit only ever does `callbacks if callbacks else []` and
+# list(...) on it) and gets every event delivered, in iteration order.  (Probed and NOT generated: a numpy object array
+# with 0 or >= 2 elements - its truth value raises; a bare callback that is not a CallbackList - not iterable.)
+CB_FORMS = ["list", "tuple", "CallbackList", "generator expression", "generator function", "iter(list)", "iter(tuple)",
+            "filter(None, [None, .., None])", "map(identity, list)", "dict values view", "dict keys view",
+            "dict (callbacks are the keys)", "OrderedDict (callbacks are the keys)", "MappingProxyType (callbacks are the keys)",
+            "collections.deque", "user sequence (__getitem__ + __len__)", "user sequence (__getitem__ only)",
+            "user iterable (__iter__ only, re-iterable)", "user one-shot iterator (__iter__ returns self)", "itertools.chain",
+            "reversed(list)", "itertools.islice", "list subclass", "collections.UserList", "CallbackList built from a generator",
+            "CallbackList built by append / insert", "CallbackList + CallbackList", "list holding a nested CallbackList",
+            "frozenset (one element)", "numpy object array (one element)", "generator over a dict's items"]
+NFORMS = len(CB_FORMS)                     # 31
+ONE_SHOT = {3, 4, 5, 6, 7, 8, 18, 19, 20, 21, 30}      # single-pass: can be iterated exactly once
+DEDUP = {10, 11, 12, 13}                   # the callbacks are dict keys: an object listed twice would collapse
+SINGLE = {28, 29}                          # only meaningful / accepted with exactly one element
+
+
+class _SeqLen:
+    def __init__(self, x):
+        self.x = list(x)
+
+    def __getitem__(self, i):
+        return self.x[i]
+
+    def __len__(self):
+        return len(self.x)
+
+
+class _SeqNoLen:
+    def __init__(self, x):
+        self.x = list(x)
+
+    def __getitem__(self, i):
+        return self.x[i]
+
+
+class _Iterable:
+    def __init__(self, x):
+        self.x = list(x)
+
+    def __iter__(self):
+        return iter(self.x)
+
+
+class _OneShot:
+    def __init__(self, x):
+        self.it = iter(list(x))
+
+    def __iter__(self):
+        return self
+
+    def __next__(self):
+        return next(self.it)
+
+
+class _ListSub(list):
+    pass
+
+
+def _genfn(x):
+    for c in x:
+        yield c
+
+
+def eff_cform(case):
+    """Index into CB_FORMS of the form in which the callbacks of this script are handed to fit."""
+    cf = case.get("cform")
+    if cf is None:
+        cf = case.get("fv", 0) % 3             # replay files written before the container forms existed
+    pos = callback_positions(case)
+    if cf in DEDUP and len(set(pos)) != len(pos):
+        cf = 9                                 # an object is listed twice: values view instead of keys
+    if cf in SINGLE and len(pos) != 1:
+        cf = 6
+    return int(cf)
+
+
+def wrap_callbacks(cbs, cf):
+    """The list `cbs` of callback objects in container form `cf`."""
+    from qucumber.callbacks.callback_list import CallbackList
+    cbs = list(cbs)
+    if cf == 0:
+        return cbs
+    if cf == 1:
+        return tuple(cbs)
+    if cf == 2:
+        return CallbackList(cbs)
+    if cf == 3:
+        return (c for c in cbs)
+    if cf == 4:
+        return _genfn(cbs)
+    if cf == 5:
+        return iter(cbs)
+    if cf == 6:
+        return iter(tuple(cbs))
+    if cf == 7:
+        return filter(None, [None] + cbs + [None])
+    if cf == 8:
+        return map(lambda c: c, cbs)
+    if cf == 9:
+        return {i: c for i, c in enumerate(cbs)}.values()
+    if cf == 10:
+        return {c: i for i, c in enumerate(cbs)}.keys()
+    if cf == 11:
+        return {c: i for i, c in enumerate(cbs)}
+    if cf == 12:
+        return collections.OrderedDict((c, i) for i, c in enumerate(cbs))
+    if cf == 13:
+        return _types.MappingProxyType({c: i for i, c in enumerate(cbs)})
+    if cf == 14:
+        return collections.deque(cbs)
+    if cf == 15:
+        return _SeqLen(cbs)
+    if cf == 16:
+        return _SeqNoLen(cbs)
+    if cf == 17:
+        return _Iterable(cbs)
+    if cf == 18:
+        return _OneShot(cbs)
+    if cf == 19:
+        return itertools.chain(cbs[:1], cbs[1:])
+    if cf == 20:
+        return reversed(cbs[::-1])
+    if cf == 21:
+        return itertools.islice(cbs + [None], len(cbs))
+    if cf == 22:
+        return _ListSub(cbs)
+    if cf == 23:
+        return collections.UserList(cbs)
+    if cf == 24:
+        return CallbackList(c for c in cbs)
+    if cf == 25:
+        out = CallbackList([])
+        for c in cbs[1:]:
+            out.append(c)
+        for c in cbs[:1]:
+            out.insert(0, c)
+        return out
+    if cf == 26:
+        return CallbackList(cbs[:1]) + CallbackList(cbs[1:])
+    if cf == 27:
+        return cbs[:1] + [CallbackList(cbs[1:])]
+    if cf == 28:
+        return frozenset(cbs)
+    if cf == 29:
+        arr = np.empty(len(cbs), dtype=object)
+        for i, c in enumerate(cbs):
+            arr[i] = c
+        return arr
+    return (c for _, c in {i: c for i, c in enumerate(cbs)}.items())
+
+
+def container_snapshot(obj):
+    """Identities of the callback objects a (re-iterable) container lists, nested CallbackLists expanded."""
+    from qucumber.callbacks.callback_list import CallbackList
+    return [("CallbackList", container_snapshot(c)) if isinstance(c, CallbackList) else id(c) for c in obj]
+
+
+class Box:
+    """What the callback objects of a script refer to at call time (so the SAME callback objects and the SAME
+    container can be handed to a second fit call with another script)."""
+    tape = None
+    case = None
+
+
+def can_reuse(shared, case):
+    return bool(shared and case.get("reuse") and case["ncb"] > 0 and shared["reiterable"] and shared["cform"] == eff_cform(case)
+                and shared["forms"] == callback_forms(case) and shared["positions"] == callback_positions(case))
+
+
+def make_callbacks(box, case):
     """The callbacks of a script in their public forms (see callback_forms), listed as callback_positions says."""
     from qucumber.callbacks import CallbackBase, LambdaCallback
-    raise_i = case["raise_at"]
-    raiser = case["raiser"] if case["raiser"] < case["ncb"] else -1      # passive extras never raise
-
     def handle(j, nn_state, code, e, b):
+        tape, case = box.tape, box.case                # the run in progress (the objects may serve several runs)
+        raise_i = case["raise_at"]
+        raiser = case["raiser"] if case["raiser"] < case["ncb"] else -1      # passive extras never raise
         if j == 0:
             tape.timeline.append([code, e, b, tape.snap()])
             tape.nvis += 1
@@ -317,29 +507,42 @@ def parse_timer(out):
     return msgs, other
 
 
-def drive(case, state=None):
-    """Run the real fit for one script. Returns a dict of observations (or raises)."""
+def drive(case, state=None, shared=None):
+    """Run the real fit for one script. Returns a dict of observations (or raises).  `shared`: the argument objects of
+    the previous call of the history; they are handed over AGAIN (the same container of the same callback objects, the
+    same data / bases arrays, the same optimizer_args dict) when the script says reuse and they fit this script."""
     import torch
     kind = case["state"]
     s = state if state is not None else build_state(kind, case["dseed"])
-    data, bases = build_data(kind, case["N"], case["dseed"], case.get("data_form", "numpy"))
     tape = Tape(s)
     m = case["ncb"]
-    cbs = make_callbacks(tape, case)
     fv = case.get("fv", 0)
-    if m and fv % 3 == 1:
-        cbs = tuple(cbs)
-    elif m and fv % 3 == 2:
-        from qucumber.callbacks.callback_list import CallbackList
-        cbs = CallbackList(cbs)
+    cf = eff_cform(case)
+    prev = shared if can_reuse(shared, case) else None
+    data_key = (kind, case["N"], case["dseed"], case.get("data_form", "numpy"))
+    if prev is not None and prev["data_key"] == data_key:
+        data, bases, oargs = prev["data"], prev["bases"], prev["oargs"]
+    else:
+        data, bases = build_data(kind, case["N"], case["dseed"], case.get("data_form", "numpy"))
+        oargs = {"weight_decay": 0.05}
+    if prev is not None:
+        box, objs, cbs = prev["box"], prev["objs"], prev["container"]
+    else:
+        box = Box()
+        objs = make_callbacks(box, case)
+        cbs = wrap_callbacks(objs, cf)
+    box.tape, box.case = tape, case
+    reiterable = cf not in ONE_SHOT
+    cont_before = container_snapshot(cbs) if (m and reiterable) else None
+    arg_before = (np.array(data, copy=True) if not torch.is_tensor(data) else data.clone(), None if bases is None else bases.copy(), dict(oargs))
     if case["prestopped"] == "explicit":
         s.stop_training = True
     before = tape.snap()
     flag_before = s.stop_training
     I = lambda v: as_int_type(v, case.get("itype", 0))
     kw = dict(epochs=I(case["epochs"]), pos_batch_size=I(case["bs"]), neg_batch_size=I(case["neg_bs"]), k=I(case.get("k", 1)), lr=0.1,
-              starting_epoch=I(case["start"]), time=case["time"], callbacks=(cbs if m else ([] if fv % 2 else None)),
-              optimizer=make_optimizer(tape, case), optimizer_args={"weight_decay": 0.05})
+              starting_epoch=I(case["start"]), time=case["time"], callbacks=(cbs if m else (wrap_callbacks([], cf) if fv % 2 else None)),
+              optimizer=make_optimizer(tape, case), optimizer_args=oargs)
     if case.get("defaults"):
         # every argument that has its documented default value is left out (starting_epoch=1, time=False,
         # neg_batch_size=None, k=1, callbacks=None, epochs=100, pos_batch_size=100; lr takes its default too)
@@ -378,7 +581,13 @@ def drive(case, state=None):
         prev = sn
         log.append([code, int(e), int(b), v])
     tmsgs, other = parse_timer(buf.getvalue())
-    return {"state_obj": s, "zero_grad_steps": tape.zero_grad_steps, "log": log, "timeline": tape.timeline, "before": before, "after": after,
+    cont_after = container_snapshot(cbs) if (m and reiterable) else None
+    same = lambda a, b: (a is None and b is None) or (torch.equal(a, b) if torch.is_tensor(a) else np.array_equal(a, b))
+    args_same = {"data": same(arg_before[0], data), "input_bases": same(arg_before[1], bases), "optimizer_args": arg_before[2] == oargs}
+    nxt = {"box": box, "objs": objs, "container": cbs, "reiterable": reiterable, "cform": cf, "forms": callback_forms(case),
+           "positions": callback_positions(case), "data_key": data_key, "data": data, "bases": bases, "oargs": oargs}
+    return {"shared": nxt, "reused": prev is not None, "cform": cf, "container_before": cont_before, "container_after": cont_after,
+            "args_same": args_same, "state_obj": s, "zero_grad_steps": tape.zero_grad_steps, "log": log, "timeline": tape.timeline, "before": before, "after": after,
             "flag_before": flag_before, "flag": s.stop_training, "deliveries": [list(map(int, d)) for d in tape.deliveries],
             "timer": tmsgs, "other_output": other, "ret": ret, "aborted": aborted}
 
@@ -442,6 +651,16 @@ def oracle(ctx, case, obs):
     R = lambda what, ok, detail="": ctx.require(what, bool(ok), case, detail)
     show = lambda t: [(NAMES[c], e, b) for c, e, b in t][:40]
 
+    # ---- the caller's container of callbacks is the caller's: a later call that is handed the same object must serve the
+    #      same callbacks in the same order (the history with the SAME container checks the consequence with the trace oracle)
+    if obs.get("container_before") is not None:
+        bef, aft = obs["container_before"], obs["container_after"]
+        kept = [x for x in aft if x in bef]            # objects the call ADDED to the caller's container are not the user's
+        R("the caller's callbacks container still lists the user's callback objects, each as often as before and in the same order, after fit",
+          kept == bef, {"container": CB_FORMS[obs["cform"]], "listed before": len(bef), "of them listed after": len(kept)})
+        ctx.count("info:the caller's callbacks container %s" % ("is as it was after fit" if aft == bef else "GREW / was re-nested by fit"))
+    for name, same in obs.get("args_same", {}).items():          # not part of the property: informational
+        ctx.count("info:argument object %s %s by fit" % (name, "left as it was" if same else "WRITTEN"))
     if obs.get("aborted"):
         # a callback raised an exception and the caller caught it: nothing is demanded of the aborted run beyond
         # causality (what was emitted before the exception is the beginning of the full run)
@@ -580,11 +799,13 @@ def model_run(ctx, case):
     return {"nb": nb, "log": I(log), "stop": bool(stop), "ver": int(ver), "deliveries": I(dl), "timer": I(tm), "recognised": bool(rec)}
 
 
-def run_case(ctx, case, state=None):
+def run_case(ctx, case, state=None, shared=None):
+    case = dict(case, callbacks_as=(CB_FORMS[eff_cform(case)] if (case["ncb"] or case.get("fv", 0) % 2) else "None"))
     nb_py = -(-case["N"] // case["bs"])
     n_ep = max(0, case["epochs"] + 1 - case["start"])
     desc = {k: case.get(k, 0) for k in ("state", "start", "epochs", "N", "bs", "neg_bs", "raise_at", "ncb", "raiser", "time", "sched", "prestopped", "fv",
-                                           "defaults", "positional", "data_form", "dup", "itype", "hk", "k", "int_raiser", "int_at", "abort")}
+                                           "defaults", "positional", "data_form", "dup", "itype", "hk", "k", "int_raiser", "int_at", "abort", "reuse")}
+    desc["cform"] = eff_cform(case)
     desc["history"] = len(case.get("hist", []))
     ctx.case(desc, nontrivial=(n_ep >= 1 and not case["prestopped"]))
     ctx.count("state:" + case["state"]); ctx.count("nb:%d" % nb_py); ctx.count("epochs_run:%d" % n_ep)
@@ -603,14 +824,18 @@ def run_case(ctx, case, state=None):
             for c_ in hooks:
                 ctx.count("LambdaCallback hook given as:" + HOOK_KINDS[(case.get("hk", 0) + j_ + c_) % len(HOOK_KINDS)])
     if case["ncb"]:
-        ctx.count("callbacks passed as:" + ("list", "tuple", "CallbackList")[case.get("fv", 0) % 3])
+        ctx.count("callbacks passed as:" + CB_FORMS[eff_cform(case)])
+        ctx.count("callbacks container is %s" % ("a single-pass iterable" if eff_cform(case) in ONE_SHOT else "re-iterable"))
+        ctx.count("callbacks container / callback objects / data / optimizer_args are the SAME objects as in the previous call:%s" % can_reuse(shared, case))
         ctx.count("progbar:%s" % (case.get("fv", 0) % 16 == 5))
         ctx.count("same callback object listed twice:%s" % (len(callback_positions(case)) > len(forms)))
     ctx.count("arguments at their default are omitted:%s" % bool(case.get("defaults")))
     ctx.count("starting_epoch omitted (default):%s" % bool(case.get("defaults") and case["start"] == 1))
     ctx.count("data as:%s%s" % (case.get("data_form", "numpy"), ", epochs/pos_batch_size positional" if case.get("positional") else ""))
     ctx.count("earlier fit calls on the same object:%d" % len(case.get("hist", [])))
-    ok, obs = ctx.call("fit", case, drive, case, state)
+    if not case["ncb"] and case.get("fv", 0) % 2:
+        ctx.count("no callbacks, passed as an empty:" + CB_FORMS[eff_cform(case)])
+    ok, obs = ctx.call("fit", case, drive, case, state, shared)
     if not ok:
         return None
     if obs["aborted"]:
@@ -647,9 +872,11 @@ def run_case(ctx, case, state=None):
 
 
 def mk(kind, start, epochs, N, bs, raise_at=-1, ncb=1, raiser=0, time=False, sched=False, prestopped="", neg_bs=None, dseed=11, fv=0,
-       defaults=None, positional=None, data_form=None, dup=None, itype=None, hk=None, k=None, int_raiser="", int_at=-1, abort=""):
+       defaults=None, positional=None, data_form=None, dup=None, itype=None, hk=None, k=None, int_raiser="", int_at=-1, abort="",
+       cform=None, reuse=False):
     fv = int(fv)
-    return {"itype": int((1 if fv % 11 == 4 else 2 if fv % 11 == 8 else 3 if fv % 13 == 6 else 0) if itype is None else itype),
+    return {"cform": int((fv % 3 if fv % 4 == 0 else fv % NFORMS) if cform is None else cform), "reuse": bool(reuse),
+            "itype": int((1 if fv % 11 == 4 else 2 if fv % 11 == 8 else 3 if fv % 13 == 6 else 0) if itype is None else itype),
             "hk": int(fv % 5 if hk is None else hk), "k": int([1, 1, 1, 2, 1, 3, 1, 0][fv % 8] if k is None else k),
             "int_raiser": int_raiser, "int_at": int(int_at), "abort": abort,
             "defaults": bool(fv % 2 == 1 if defaults is None else defaults),
@@ -736,7 +963,8 @@ def random_case(ctx, kind=None):
     return mk(kind, start, epochs, N, bs, r, ncb, int(rng.integers(0, max(ncb, 1))), bool(rng.integers(0, 2)), sched,
               neg_bs=([None, 1, bs + 2][int(rng.integers(0, 3))] if N else None), dseed=int(rng.integers(1, 10 ** 6)),
               fv=int(rng.integers(0, 420)), itype=(int(rng.integers(1, 4)) if rng.integers(0, 3) == 0 else 0),
-              hk=int(rng.integers(0, 5)), k=int(rng.choice([1, 1, 2, 3, 0])), int_raiser=who, int_at=at)
+              hk=int(rng.integers(0, 5)), k=int(rng.choice([1, 1, 2, 3, 0])), int_raiser=who, int_at=at,
+              cform=int(rng.integers(0, 3) if rng.integers(0, 3) == 0 else rng.integers(0, NFORMS)))
 
 
 def random_cases(ctx, n):
@@ -750,7 +978,14 @@ def random_cases(ctx, n):
                 # the first run of the history is aborted by an exception raised in a callback
                 first["abort"] = ["KeyboardInterrupt", "RuntimeError"][int(ctx.rng.integers(0, 2))]
             for _ in range(int(ctx.rng.integers(1, 3))):
-                steps.append((random_case(ctx, first["state"]), [None, "reset"][int(ctx.rng.integers(0, 2))]))
+                nxt = random_case(ctx, first["state"])
+                if ctx.rng.integers(0, 2) == 0:       # the same container / callback objects / data objects, other settings
+                    nb = -(-first["N"] // first["bs"])
+                    st, ep = nxt["start"], nxt["epochs"]
+                    alt = reuse_variant(first, start=st, epochs=ep, raise_at=int(ctx.rng.integers(-1, len(full_run(st, ep, nb)))),
+                                        time=nxt["time"], sched=nxt["sched"], k=nxt["k"], itype=nxt["itype"])
+                    nxt = alt if alt is not None else nxt
+                steps.append((nxt, [None, "reset"][int(ctx.rng.integers(0, 2))]))
             yield ("history", steps)
             i += len(steps)
         else:
@@ -825,31 +1060,32 @@ def compact(case):
 
 def prepare_state(case):
     """Re-create the object a case with a history starts from: the earlier fit calls (and flag resets) are re-run."""
-    s = None
+    s, shared = None, None
     for prior, action in case.get("hist", []):
         if action == "reset" and s is not None:
             s.stop_training = False
-        s = drive(prior, s)["state_obj"]
+        obs = drive(prior, s, shared)
+        s, shared = obs["state_obj"], obs["shared"]
     if s is not None and case.get("reset_before"):
         s.stop_training = False
-    return s
+    return s, shared
 
 
 def run_history(ctx, steps):
     """Several fit calls on the SAME object.  steps: [(case, action)], action None | "reset" (stop_training = False
     before the call).  Every call must follow the protocol on its own: a finished run leaves nothing behind except
     the flag, and a flag left up (no reset) makes the next call a pre-stopped one."""
-    state, hist = None, []
+    state, hist, shared = None, [], None
     for case, action in steps:
         case = dict(case, hist=list(hist), reset_before=(action == "reset"))
         if state is not None and action == "reset":
             state.stop_training = False
         if state is not None and state.stop_training:
             case["prestopped"] = "persisted"
-        obs = run_case(ctx, case, state=state)
+        obs = run_case(ctx, case, state=state, shared=shared)
         if obs is None:
             return
-        state = obs["state_obj"]
+        state, shared = obs["state_obj"], obs["shared"]
         hist.append([compact(dict(case, reset_before=False)), action])
 
 
@@ -884,9 +1120,51 @@ def n0_other_regimes(ctx):
             ctx.require("N = 0 rows with sampled negatives: the run follows the protocol", ok, case, detail)
 
 
+def reuse_variant(first, rng=None, **changes):
+    """A second script for the SAME callback objects in the SAME container (and the same data / optimizer_args objects):
+    `first` with other settings, kept only if the callback objects fit it (same hooks exist); else None."""
+    new = dict(first, abort="", int_raiser="", int_at=-1, reuse=True, **changes)
+    if callback_forms(new) != callback_forms(first) or callback_positions(new) != callback_positions(first):
+        new["raise_at"] = -1
+        if callback_forms(new) != callback_forms(first):
+            return None
+    return new
+
+
+def container_regimes(ctx):
+    """(1) every container form x state type, with and without a scripted stop, time on/off, 1-3 listed callbacks plus
+    passive ones, an object listed twice; (2) no callbacks, handed over as an EMPTY container of every form; (3) the
+    same container object (re-iterable forms) handed to a second and third fit call with other settings."""
+    P = dict(itype=0, k=1, defaults=False, positional=False)
+    n = 0
+    for kind in ("positive", "complex", "mixed"):
+        for cf in range(NFORMS):
+            for (r, ncb, raiser) in (((-1, 2, 0), (4, 2, 1), (6, 1, 0)) if kind == "positive" else ((3 + cf % 4, 2, cf % 2),)):
+                n += 1
+                single = cf in SINGLE
+                yield ("single", mk(kind, 1, 2, 3, 2, r, 1 if single else ncb, 0 if single else raiser, bool(n % 2), bool(n % 3 == 0),
+                                    fv=(0 if single else [0, 1, 2, 4, 5, 3][n % 6]), cform=cf, dup=(0 if n % 4 else 1 + n % 3 % 2), **P))
+        for cf in range(NFORMS):                      # no callbacks at all: an empty container of this form (fv odd)
+            if cf not in SINGLE and (kind == "positive" or cf % 3 == 0):
+                yield ("single", mk(kind, 1, 2, 3, 2, -1, 0, 0, bool(cf % 2), True, fv=1, cform=cf, dup=0, **dict(P, defaults=False)))
+        for cf in range(NFORMS):                      # the SAME container again (single-pass forms cannot be handed over twice)
+            if cf in ONE_SHOT or (kind != "positive" and cf % 2 == (kind == "mixed")):
+                continue
+            n += 1
+            single = cf in SINGLE
+            a = mk(kind, 1, 2, 3, 2, [-1, 3, 6][n % 3], 1 if single else 2, 0, True, bool(n % 2), fv=(0 if single else [0, 2, 4][n % 3]),
+                   cform=cf, dup=(0 if n % 3 else 1), **P)
+            b = reuse_variant(a, start=2, epochs=3, raise_at=[4, -1, 1][n % 3], time=bool(n % 2), sched=True)
+            c = reuse_variant(a, start=1, epochs=1, raise_at=-1, time=True, k=2)
+            yield ("history", [(a, None)] + [(x, "reset") for x in (b, c) if x is not None])
+
+
 def fixed_first(ctx):
     """Regimes that always run first: zero rows, arguments left at their defaults, several fit calls on one object,
     the same callback object listed twice."""
+    # ================= every form of the `callbacks=` argument (seed round 6) =================
+    for tag, item in container_regimes(ctx):
+        yield (tag, item)
     fv = 0
     # ---- N = 0 rows (zero batches per epoch): TrainStart (EpochStart e EpochEnd e)* TrainEnd
     for (start, epochs) in ((1, 2), (3, 4), (1, 0)):
@@ -997,14 +1275,14 @@ def search(ctx, broken, budget):
 
     for tag, item in sweep():
         steps = item if tag == "history" else [(item, None), (dict(item, raise_at=-1), None)] if tag == "persist" else [(item, None)]
-        state = None
+        state, shared = None, None
         for case, action in steps:
             try:
                 if state is not None and action == "reset":
                     state.stop_training = False
-                obs = drive(case, state)
+                obs = drive(case, state, shared)
                 oracle(ctx, case, obs)
-                state = obs["state_obj"]
+                state, shared = obs["state_obj"], obs["shared"]
             except Exception as ex:
                 ctx.require("fit raised " + type(ex).__name__, False, case, repr(ex)[:300])
                 break
@@ -1027,5 +1305,5 @@ def replay(ctx, rec):
     if case.get("prestopped") == "persisted" and not case.get("hist"):      # replay files written before histories existed
         run_history(ctx, [(dict(case, raise_at=2, prestopped=""), None), (dict(case, prestopped=""), None)])
         return
-    state = prepare_state(case)
-    run_case(ctx, case, state=state)
+    state, shared = prepare_state(case)
+    run_case(ctx, case, state=state, shared=shared)
